@@ -9,7 +9,7 @@ import copy
 from decimal import Decimal
 from fractions import Fraction
 
-from ..sim import Sim, Oracle
+from ..sim import Sim, Oracle, HarnessError
 from ..worlds import aave as A
 from ..ref import aave as RA
 from ..ref.aave import F, fstr
@@ -131,6 +131,8 @@ def generate(seed: int, tier: str = "quick") -> dict:
                 o["a"]["with_collateral"] = True
                 if rp.random() < 0.7:
                     o["a"]["collateral_token"] = {"supplied": rp.randint(0, 3)}
+            elif rp.random() < 0.2:
+                o["a"]["named_token"] = {"supplied": rp.randint(0, 3)}
             if rf.random() < 0.08:
                 o["a"]["amount"] = {"f": "debt", "x": rf.choice(["1.001", "2"])}
                 faults.append({"kind": "reject:repay:beyond_debt", "bar": b})
@@ -160,7 +162,35 @@ def generate(seed: int, tier: str = "quick") -> dict:
         opts = {"twin": False, "drive": "direct"}
         program = [o for o in program if o["phase"] != "trigger"]
         faults.append({"kind": "market_driven_without_the_actuator"})
+    if interval != "1min" and not mw.get("via_files") and R.sub(seed, "earlier_run").random() < 0.2:
+        # the market objects have served an earlier back test on ANOTHER index history (same timestamps) before they are
+        # given this run's data (`market.data = frame`): what this run accrues follows this run's data
+        opts["earlier_run"] = True
+        faults.append({"kind": "market_objects_served_an_earlier_run_on_other_data"})
     return {"property": ID, "seed": seed, "world": world, "program": program, "faults": faults, "opts": opts}
+
+
+def _sim_after_an_earlier_run(scenario, ox):
+    """run an idle back test over a DIFFERENT index history on fresh market objects, then hand the same objects this
+    scenario's frames through the public `data` setter and return the Sim that runs the scenario on them"""
+    sa = copy.deepcopy({k: v for k, v in scenario.items() if k not in ("program", "expect", "minimised")})
+    sa["program"] = []
+    for m in sa["world"]["markets"]:
+        if m.get("kind") != "aave":
+            continue
+        for col in ("liquidity_index", "variable_borrow_index"):
+            for t, series in m[col].items():
+                n = len(series)
+                m[col][t] = [format((Decimal(v) * (1 + Decimal(3 * i + 1) / Decimal(100 * n))).quantize(Decimal(1).scaleb(-27)), "f") for i, v in enumerate(series)]
+    earlier = Sim(sa, None).run()
+    if earlier.crash is not None:
+        raise HarnessError(f"the idle earlier run crashed: {earlier.crash!r}")
+    own = Sim(scenario, None)  # never run: only the frames its builders made are used
+    frames = {name: mk.data for name, mk in own.markets.items()}
+    sim = Sim(scenario, ox, reuse=earlier, prebuilt=frames)
+    sim.mdata = dict(own.mdata)
+    sim.count("fault:market_objects_served_an_earlier_run_on_other_data")
+    return sim
 
 
 def BASE_UNITS(world, t):
@@ -472,7 +502,10 @@ def compare_twins(sim, ox: LedgerOracle, oy: LedgerOracle, simy, yprog, inflight
 # --------------------------------------------------------------------------------------------------- execution
 def execute(scenario) -> Sim:
     ox = LedgerOracle("X")
-    sim = Sim(scenario, ox).run()
+    if scenario.get("opts", {}).get("earlier_run"):
+        sim = _sim_after_an_earlier_run(scenario, ox).run()
+    else:
+        sim = Sim(scenario, ox).run()
     if not scenario.get("opts", {}).get("twin", True) or sim.violations:
         return sim
     if not any(o.get("split") for o in scenario["program"]):
